@@ -183,6 +183,7 @@ def generate(contract):
         S = states[id(ctx)]
         res.outcomes[r.outcome] = res.outcomes.get(r.outcome, 0) + 1
         res.dropped |= ctx.dropped
+        res.also.update(getattr(ctx, 'also_executed', None) or {})  # real bodies a contract model executed in line (listed in the evidence)
         res.notes += ctx.notes
 
         def mk(clause, hyps, goal, kind, info=None, bounded=None, _split=True):
